@@ -47,13 +47,19 @@ def spawn_child(i, path, lock, rlock, bsem, cond, ev, conn):
                         if not bsem.acquire(True, BOUND):
                             conn.send(('stuck', 'bsem'))
                             return
-                        a[8 + i] = 1
-                        occ = sum(a[8 + j] for j in range(8))
+                        a[8 + i] += 1            # odd: inside
+                        occ = 0
+                        for _try in range(4):    # double collect = atomic snapshot
+                            s1 = [a[8 + j] for j in range(8)]
+                            s2 = [a[8 + j] for j in range(8)]
+                            if s1 == s2:
+                                occ = sum(v & 1 for v in s1)
+                                break
                         maxocc = max(maxocc, occ)
                         if occ > 2:
                             over += 1
                         time.sleep(0)
-                        a[8 + i] = 0
+                        a[8 + i] += 1            # even: outside
                         bsem.release()
                     conn.send(('mutex', n, over, maxocc))
                 elif op == 'cwait':
